@@ -47,7 +47,7 @@ FenceVariants == << [ind |-> 0, tr |-> <<>>, name |-> "plain"],
 FenceChars == {96, 126}
 FSyms == {[c |-> c, n |-> n, v |-> v] : c \in FenceChars, n \in FenceRuns, v \in 1..FenceVars}
 FLine(x) == [c |-> x.c, n |-> x.n, ind |-> FenceVariants[x.v].ind, tr |-> FenceVariants[x.v].tr]
-FName(x) == "fence_" \o (IF x.c = 96 THEN "bq" ELSE "tilde") \o ToString(x.n) \o "_" \o FenceVariants[x.v].name
+FName(x) == "fl_" \o (IF x.c = 96 THEN "bq" ELSE "tilde") \o ToString(x.n) \o "_" \o FenceVariants[x.v].name
 FLines(f) == [i \in 1..Len(f) |-> FLine(f[i])]
 
 VARIABLES doc, S, off, fd
@@ -130,9 +130,11 @@ FenceCase(id, f) == LET dd == FDoc(FLines(f)) IN
                      base |-> CfgMulti.base, dir |-> CfgMulti.dir]
 QAlphabet == (PunctSet \ {37}) \cup {97}
 QStrings(g) == SeqsUpTo(QAlphabet, QLen)
-QueryCase(id, s, angle) == LET dd == QDoc(s, angle) IN
-                    [id |-> id, k |-> "doc", kinds |-> <<IF angle THEN "query_escape_angle" ELSE "query_escape">>, src |-> dd.src,
+\* variant 0..3: bit 0 = between angle brackets, bit 1 = sparing spelling
+QueryCase(id, s, variant) == LET dd == QDoc(s, variant % 2 = 1, variant >= 2) IN
+                    [id |-> id, k |-> "doc", kinds |-> <<"query_escape">>, src |-> dd.src,
                      spans |-> dd.spans, base |-> CfgMulti.base, dir |-> CfgMulti.dir]
+SpellingsDenote(g) == \A s \in QStrings(g) : RefUnescape(RefEscape(s)) = s /\ RefUnescape(RefEscMin(s)) = s
 Cases(g) ==
   LET docSeq == SetToSeq(AllDocs(g))
       escSeq == SetToSeq(EscStrings)
@@ -146,12 +148,13 @@ Cases(g) ==
       \* single blocks under every configuration
       single == [n \in 1..ns |-> DocCase(nd + n, <<((n - 1) % NK) + 1>>, Cfgs[((n - 1) \div NK) + 1])]
       fence == [n \in 1..nf |-> FenceCase(nd + ns + n, fenceSeq[n])]
-      query == [n \in 1..(2 * nq) |-> QueryCase(nd + ns + nf + n, qSeq[((n - 1) % nq) + 1], n > nq)]
-      esc == [n \in 1..Len(escSeq) |-> [id |-> nd + ns + nf + 2 * nq + n, k |-> "esc", u |-> escSeq[n]]] IN
+      query == [n \in 1..(4 * nq) |-> QueryCase(nd + ns + nf + n, qSeq[((n - 1) % nq) + 1], (n - 1) \div nq)]
+      esc == [n \in 1..Len(escSeq) |-> [id |-> nd + ns + nf + 4 * nq + n, k |-> "esc", u |-> escSeq[n]]] IN
   multi \o single \o fence \o query \o esc
 \* the export comes first: a failing model assumption below is a diagnostic, the cases are still replayed
 ASSUME Mode = "gen" => ndJsonSerialize("cases.ndjson", Cases(0))
 ASSUME Mode = "gen" => TableConsistent /\ Len(Kinds) = Cardinality(KindNames)
 ASSUME Mode = "gen" => RewriteAllCfgs(0)
 ASSUME Mode = "gen" => EscPairModel(0)
+ASSUME Mode = "gen" => SpellingsDenote(0)
 =============================================================================
